@@ -135,8 +135,10 @@ class CircuitTemplate(AbstractBaseTemplate):
             self.edges = []
 
         # vector/matrix-native populations and connections
-        self.populations = populations or {}
-        self.connections = connections or []
+        # (own containers: `update_var` replaces entries of `self.populations`, which must not show up in the caller's dictionary
+        # or in other circuits that were built from it)
+        self.populations = dict(populations) if populations else {}
+        self.connections = list(connections) if connections else []
 
         # Register each population's base NodeTemplate in self.nodes so that the
         # existing get_nodes / get_node_template / _get_nodes_with_var machinery
